@@ -180,7 +180,71 @@ def gen_update_method(r, idx):
             "bindings": [{"verb": "patch", "uri": uri, "body": r.pick(["book", "book", "*"]), "vars": [v]}]}
 
 
-def gen_api(r, idx, nmethods=6):
+# ---- package layouts (the property does not distinguish them; the generator renders sub-package services with a VIEW of the API)
+SUBS = ["stacks", "stacks", "admin", "stacks.inner"]
+LAYOUTS = ["flat", "svc-sub", "svc-both", "msg-sub"]
+
+
+def services_of(spec):
+    return spec.get("services") or [{"name": SVC, "sub": False}]
+
+
+def sub_pkg(spec):
+    return f"{PKG}.{spec['sub']}" if spec.get("sub") else PKG
+
+
+def svc_full(spec, i):
+    s = services_of(spec)[i]
+    return f"{sub_pkg(spec) if s.get('sub') else PKG}.{s['name']}"
+
+
+def apply_layout(r, spec, layout, sub=None):
+    """flat     — one file, everything in the API package (the only layout before round 7);
+    svc-sub  — (a) every service in ONE sub-package, the shared messages in the API package, each request next to the service or in the API package;
+    svc-both — (b) one service in the API package and one in a sub-package, methods dealt to both, requests in either package;
+    msg-sub  — (c) the service in the API package, its request/response messages in a sub-package."""
+    spec["layout"] = layout
+    if layout == "flat":
+        return spec
+    spec["sub"] = sub or r.pick(SUBS)
+    if layout == "svc-sub":
+        spec["services"] = [{"name": SVC, "sub": True}]
+        spec["types_sub"] = False
+        for m in spec["methods"]:
+            m["svc"], m["req_sub"] = 0, r.maybe(0.35)
+    elif layout == "svc-both":
+        spec["services"] = [{"name": SVC, "sub": False}, {"name": "Stacks", "sub": True}]
+        spec["types_sub"] = r.maybe(0.3)
+        for i, m in enumerate(spec["methods"]):
+            m["svc"] = i % 2 if i < 2 else r.randrange(2)
+            m["req_sub"] = bool(m["svc"]) if r.maybe(0.6) else not m["svc"]
+    elif layout == "msg-sub":
+        spec["services"] = [{"name": SVC, "sub": False}]
+        spec["types_sub"] = r.maybe(0.7)
+        for m in spec["methods"]:
+            m["svc"], m["req_sub"] = 0, r.maybe(0.8)
+        if not spec["types_sub"]:
+            spec["methods"][0]["req_sub"] = True
+    else:
+        raise ValueError(layout)
+    if r.maybe(0.3):
+        # `catalog.proto` in the API package and `<sub>/catalog.proto` (the same python module name twice, one importing the
+        # other); requests sit where that keeps the two files acyclic
+        spec["one_file_per_package"] = True
+        spec["types_sub"] = layout == "msg-sub"
+        for m in spec["methods"]:
+            m["req_sub"] = True if layout == "msg-sub" else bool(spec["services"][m["svc"]]["sub"])
+    return finish_layout(spec)
+
+
+def finish_layout(spec):
+    for m in spec["methods"]:
+        m["req_pkg"] = sub_pkg(spec) if m["req_sub"] else PKG
+        m["types_pkg"] = sub_pkg(spec) if spec["types_sub"] else PKG
+    return spec
+
+
+def gen_api(r, idx, nmethods=6, layout=None):
     spec = {"numeric": r.maybe(0.5), "transport": r.pick(["rest", "grpc+rest"]), "methods": []}
     for i in range(nmethods):
         spec["methods"].append(gen_method(r, i))
@@ -189,11 +253,29 @@ def gen_api(r, idx, nmethods=6):
         spec["methods"].append(gen_update_method(r, nmethods + 2))
     if r.maybe(0.25):            # a client-streaming method WITH a binding: refused as well (model correspondence only)
         spec["methods"].append(gen_method(r, nmethods + 1, kind="cstream", nbind=1))
-    return spec
+    return apply_layout(r, spec, layout or r.pick(["flat"] * 3 + ["svc-sub", "svc-both", "msg-sub"]))
+
+
+def one_method_spec(spec, m):
+    """the payload of a failure: the API reduced to one method, layout kept"""
+    return {**{k: v for k, v in spec.items() if k != "methods"}, "methods": [m]}
 
 
 def build_files(spec):
-    f = apigen.File("acme/rest/v1/catalog.proto", PKG)
+    flat = spec.get("layout", "flat") == "flat"
+    made = {}
+
+    def file_for(role, sub):
+        """flat: one file; otherwise one file per (role, package): shared types < request messages < services"""
+        if flat:
+            role, sub = "all", False
+        elif spec.get("one_file_per_package"):      # `catalog.proto` in the API package and `<sub>/catalog.proto`: same module name twice
+            role = "all"
+        if (role, sub) not in made:
+            base = "acme/rest/v1" + ("/" + spec["sub"].replace(".", "/") if sub else "")
+            made[(role, sub)] = apigen.File(f"{base}/{'catalog' if role == 'all' else role}.proto", sub_pkg(spec) if sub else PKG)
+        return made[(role, sub)]
+    f = file_for("shared", bool(spec.get("types_sub")))
     genre = f.enum("Genre", ["GENRE_UNSPECIFIED", "FICTION", "POETRY", ("DRAMA", 5)])
     author = f.msg("Author"); author.field("given"); author.field("family"); author.field("kind", "enum", type_name=genre); author.field("age", "int32")
     chapter = f.msg("Chapter"); chapter.field("title"); chapter.field("pages", "int32"); chapter.field("tone", "enum", type_name=genre)
@@ -211,9 +293,17 @@ def build_files(spec):
     crate = f.msg("Crate"); crate.field("import", "message", type_name=imp); crate.field("given"); crate.field("list", repeated=True)
     types = {"Genre": genre, "Author": author, "Chapter": chapter, "Owner": owner, "Item": item, "Book": book,
              "Kind": kind, "Import": imp, "Crate": crate}
-    svc = f.service(SVC, host="catalog.example.com")
+    shared = f
+    svcs = []
+    for s in services_of(spec):
+        sf = file_for("service_" + s["name"].lower(), bool(s.get("sub")))
+        svcs.append((sf, sf.service(s["name"], host="catalog.example.com")))
+    used = set()
     for m in spec["methods"]:
-        rq = f.msg(m["name"] + "Request")
+        sf, svc = svcs[m.get("svc", 0)]
+        used.add(m.get("svc", 0))
+        rf = file_for("requests", bool(m.get("req_sub")))
+        rq = rf.msg(m["name"] + "Request")
         for on in sorted({fs["oneof"] for fs in m["fields"] if fs.get("oneof")}):
             rq.pb.oneof_decl.add(name=on)           # real oneofs precede the synthetic ones of proto3-optional fields
         for fs in m["fields"]:
@@ -227,21 +317,35 @@ def build_files(spec):
             rq.field(fs["name"], fs["type"], repeated=bool(fs.get("repeated")), type_name=tn, required=bool(fs.get("required")),
                      optional=bool(fs.get("optional")), oneof=fs.get("oneof"))
         out = {"Book": book, "Empty": ".google.protobuf.Empty", "Same": rq}[m["out"]]
+        for (a_, b_) in ((rf, shared), (sf, rf)) + (((sf, shared),) if m["out"] == "Book" else ()):
+            if a_ is not b_:
+                a_.dep(b_.name)
         if m["kind"] == "nohttp" or not m["bindings"]:
             svc.method(m["name"], rq, out)
         else:
             b0 = m["bindings"][0]
             svc.method(m["name"], rq, out, http=(b0["verb"], b0["uri"]), body=b0["body"],
                        bindings=[(b["verb"], b["uri"], b["body"]) for b in m["bindings"][1:]], cs=(m["kind"] == "cstream"))
-    return [f]
+    for i, (sf, svc) in enumerate(svcs):
+        if i not in used:                # a payload reduced to one method: the other service stays, with a filler method
+            nq = sf.msg(f"Noop{i}Request"); nq.field("note")
+            svc.method(f"Noop{i}", nq, ".google.protobuf.Empty", http=("get", f"/v1/noop{i}"))
+    order = {"all": 0, "shared": 0, "requests": 1}
+    todo = [fl for (_k, fl) in sorted(made.items(), key=lambda kv: (order.get(kv[0][0], 2), kv[0][1], kv[0][0]))]
+    ours, done = {fl.name for fl in todo}, []
+    while todo:                           # dependencies first (descriptor pools and the plug-in request want that order)
+        fl = next(x for x in todo if all(d not in ours or d in {y.name for y in done} for d in x.pb.dependency))
+        todo.remove(fl)
+        done.append(fl)
+    return done
 
 
 def out_full(m):
-    return {"Book": f"{PKG}.Book", "Empty": "google.protobuf.Empty", "Same": f"{PKG}.{m['name']}Request"}[m["out"]]
+    return {"Book": f"{m.get('types_pkg', PKG)}.Book", "Empty": "google.protobuf.Empty", "Same": in_full(m)}[m["out"]]
 
 
 def in_full(m):
-    return f"{PKG}.{m['name']}Request"
+    return f"{m.get('req_pkg', PKG)}.{m['name']}Request"
 
 
 def params_of(spec):
@@ -892,7 +996,7 @@ def plan_calls(ctx, r, codec, spec, ncalls):
 
 
 def oracle_call(ctx, codec, spec, m, plan, res, label):
-    payload = {"spec": {"numeric": spec["numeric"], "transport": spec["transport"], "methods": [m]}, "plan": plan}
+    payload = {"spec": one_method_spec(spec, m), "plan": plan}
     val = plan["request"]
     server = res.get("server", [])
     if m["kind"] == "cstream":
@@ -978,11 +1082,20 @@ def run_api(ctx, r, spec, label, ncalls=None, model=True, plans=None):
     files = build_files(spec)
     req = apigen.request(files, params_of(spec))
     api, _ = genrun.build_api(req)
-    svc = api.services[f"{PKG}.{SVC}"]
-    loc = rpc.py_locations(api, svc)
+    svcs = [api.services[svc_full(spec, i)] for i in range(len(services_of(spec)))]
+    locs = [rpc.py_locations(api, sv) for sv in svcs]
     codec = rpc.Codec(files)
+
+    def wm_of(m):
+        return svcs[m.get("svc", 0)].methods[m["name"]]
     if model:
-        t2_schema(ctx, spec, svc)
+        t2_schema(ctx, spec, wm_of)
+    ctx.count("layout", spec.get("layout", "flat") + (":nested-sub-package" if "." in spec.get("sub", "") else ""))
+    for m in spec["methods"]:
+        if spec.get("layout", "flat") != "flat":
+            where = lambda sub: "sub-package" if sub else "api-package"   # noqa: E731
+            ctx.count("layout_method", f"service in {where(services_of(spec)[m.get('svc', 0)].get('sub'))}, request in "
+                      f"{where(m.get('req_sub'))}, shared messages in {where(spec.get('types_sub'))}")
     for m in spec["methods"]:
         ctx.count("bindings_per_method", len(m["bindings"]) if m["kind"] == "http" else 0)
         for b in m["bindings"] if m["kind"] == "http" else []:
@@ -1003,10 +1116,11 @@ def run_api(ctx, r, spec, label, ncalls=None, model=True, plans=None):
             plans = plan_calls(ctx, r, codec, spec, ncalls or ctx.n(4, 6))
             if model:
                 t2_transcode(ctx, r, spec, codec, ctx.n(3, 6))
-        calls = []
+        calls = [[] for _ in svcs]
+        slots = []
         for p in plans:
             m = next(x for x in spec["methods"] if x["name"] == p["method"])
-            wm = svc.methods[m["name"]]
+            wm = wm_of(m)
             st = p.get("status", 200)
             rbody = p["reply_json"] if st < 400 else {"error": {"code": st, "message": "scripted", "status": "SCRIPTED"}}
             call = {"method": snake(wm.client_method_name), "mode": p["mode"], "py_request": rpc.py_type(wm.input),
@@ -1018,13 +1132,19 @@ def run_api(ctx, r, spec, label, ncalls=None, model=True, plans=None):
             if m["kind"] == "cstream":
                 call["mode"] = "request-none"
                 call["stream_requests"] = [call["request_b64"]]
-            calls.append(call)
-        out = libhost.run(root, [{"op": "rest_session", "client": loc["client"], "transport": loc["rest"], "calls": calls}], timeout=600)
-        if "calls" not in out[0]:
-            ctx.fail("session-failed", f"REST session failed: {str(out[0])[-600:]}", {"spec": spec})
-            return
+            slots.append((m.get("svc", 0), len(calls[m.get("svc", 0)])))
+            calls[m.get("svc", 0)].append(call)
+        live = [i for i in range(len(svcs)) if calls[i]]            # one session per service (its own client and transport)
+        out = libhost.run(root, [{"op": "rest_session", "client": locs[i]["client"], "transport": locs[i]["rest"], "calls": calls[i]}
+                                 for i in live], timeout=600)
+        for i, o in zip(live, out):
+            if "calls" not in o:
+                ctx.fail("session-failed", f"REST session of {svc_full(spec, i)} failed: {str(o)[-600:]}", {"spec": spec})
+                return
+        by_svc = dict(zip(live, out))
+        results = [by_svc[i]["calls"][j] for (i, j) in slots]
         mres = t3_model(ctx, spec, codec, plans) if model else [None] * len(plans)
-        for p, res_, mo in zip(plans, out[0]["calls"], mres):
+        for p, res_, mo in zip(plans, results, mres):
             m = next(x for x in spec["methods"] if x["name"] == p["method"])
             ctx.case({"method": {k: v for k, v in m.items() if k != "fields"}, "request": p["request"], "numeric": spec["numeric"]},
                      distinct_key=[json.dumps(m["bindings"], sort_keys=True), json.dumps(p["request"], sort_keys=True), spec["numeric"]],
@@ -1126,23 +1246,23 @@ def observed_leaves(codec, desc, obj, prefix=()):
 # --------------------------------------------------------------------------------------------- T2
 
 
-def t2_schema(ctx, spec, svc):
+def t2_schema(ctx, spec, wm_of):
     """generator-side functions of the real schema objects vs `Model/Http.lean`"""
     ops = [{"op": "c04.schema", "method": method_json(m)} for m in spec["methods"]]
     for m, mo in zip(spec["methods"], ctx.driver.ask(ops)):
-        wm = svc.methods[m["name"]]
+        wm = wm_of(m)
         ctx.traces += 1
         impl_opts = [{"method": o.method, "uri": o.uri, "body": o.body} for o in wm.http_options]
         if mo["http_options"] != impl_opts:
-            ctx.disagree("T2:c04.http_options", f"model {mo['http_options']} vs impl {impl_opts}", {"spec": {**spec, "methods": [m]}})
+            ctx.disagree("T2:c04.http_options", f"model {mo['http_options']} vs impl {impl_opts}", {"spec": one_method_spec(spec, m)})
         if m["kind"] == "http":
             if mo["path_params"] != list(wm.path_params):
-                ctx.disagree("T2:c04.path_params", f"model {mo['path_params']} vs impl {list(wm.path_params)}", {"spec": {**spec, "methods": [m]}})
+                ctx.disagree("T2:c04.path_params", f"model {mo['path_params']} vs impl {list(wm.path_params)}", {"spec": one_method_spec(spec, m)})
             if sorted(mo["query_params"] or []) != sorted(wm.query_params):
-                ctx.disagree("T2:c04.query_params", f"model {sorted(mo['query_params'])} vs impl {sorted(wm.query_params)}", {"spec": {**spec, "methods": [m]}})
+                ctx.disagree("T2:c04.query_params", f"model {sorted(mo['query_params'])} vs impl {sorted(wm.query_params)}", {"spec": one_method_spec(spec, m)})
         avail = bool(wm.http_options) and not wm.client_streaming
         if mo["available"] != avail:
-            ctx.disagree("T2:c04.available", f"model {mo['available']} vs impl {avail}", {"spec": {**spec, "methods": [m]}})
+            ctx.disagree("T2:c04.available", f"model {mo['available']} vs impl {avail}", {"spec": one_method_spec(spec, m)})
 
 
 def gen_uri_strings(r, n):
@@ -1294,7 +1414,7 @@ DEFAULT_FAMILY = ("dup:path+query-required-default", "dup:body+query-required-de
 
 
 def t3_compare(ctx, spec, codec, m, p, res, mo, orc=None):
-    payload = {"spec": {"numeric": spec["numeric"], "transport": spec["transport"], "methods": [m]}, "plan": p}
+    payload = {"spec": one_method_spec(spec, m), "plan": p}
     if "unsupported" in mo:
         ctx.unsupported += 1
         return
@@ -1350,7 +1470,8 @@ CORPUS = os.path.join(os.path.dirname(os.path.dirname(os.path.dirname(os.path.ab
 
 
 def run_corpus(ctx):
-    """minimised past failures first, on every run (DESIGN §3.1): each must still fail with its recorded key"""
+    """minimised past failures first, on every run (DESIGN §3.1): each must still fail with its recorded key;
+    `subpkg_*.json` are the deterministic sub-package layout cases (several plans, must pass)"""
     r = ctx.rng("corpus")
     stale = []
     known = {f["key"] for f in ctx.known}
@@ -1361,7 +1482,7 @@ def run_corpus(ctx):
             blob = json.load(fh)
         before = len(ctx.failures)
         pl = blob["payload"]
-        run_api(ctx, r, pl["spec"], "corpus:" + fn, plans=[pl["plan"]])
+        run_api(ctx, r, pl["spec"], "corpus:" + fn, plans=pl.get("plans") or [pl["plan"]])
         keys = {f["key"] for f in ctx.failures[before:]}
         if blob["key"] not in known:        # a repaired defect: kept as a regression input, any failure is a violation
             ctx.count("corpus", fn + (":regression-passes" if not keys else ":REGRESSION-FAILS"))
@@ -1414,7 +1535,11 @@ def run(ctx):
                 "reserved words as top-level name / leaf / non-leaf segment, with and without sub-templates, `**`, `:verb` suffixes, required "
                 "fields of every scalar kind or none at all, enums, repeated scalars, nested messages, well-known types, proto3-optional, "
                 "oneof, maps/repeated messages for bodies) + a method without usable binding (+ sometimes the AIP-134 PATCH/update_mask shape "
-                "and a client-streaming method) x rest-numeric-enums {off,on} x transport {rest, grpc+rest} x 4..6 random valuations per "
+                "and a client-streaming method) x rest-numeric-enums {off,on} x transport {rest, grpc+rest} x package layout {one file in the API "
+                "package (1/2); every service in a sub-package with the shared messages in the API package; one service in the API package "
+                "and one in a sub-package; the service in the API package with request/response messages in a sub-package (1/6 each; "
+                "sub-package of depth 1 or 2, each request message in either package, 30% with one equally named file per package); all "
+                "with autogen-snippets=false; one REST session per service} x 4..6 random valuations per "
                 "method (path values needing percent-encoding) passed as instance / dict / hand-written literal dict, scripted JSON replies "
                 "with statuses 200..503, two calls repeated on the same client; a case is distinct by (bindings, request, numeric); "
                 "non-trivial = non-empty request or a method without binding")
@@ -1459,7 +1584,7 @@ def replay(ctx, payload):
     if "spec" not in payload:
         print("  (function-level payload; nothing to replay against the emitted library)", payload)
         return True
-    plans = [payload["plan"]] if "plan" in payload else None
+    plans = payload.get("plans") or ([payload["plan"]] if "plan" in payload else None)
     run_api(ctx, ctx.rng("replay"), payload["spec"], "replay", plans=plans)
     for f in ctx.failures:
         print("  failure:", f["key"], "-", f["what"][:400])
@@ -1487,5 +1612,7 @@ CLAIM = dict(
     design="7.4",
     note=("Relative to the stated specification of path_template.transcode (validated differentially, not proved about api-core) and to protobuf's "
           "JSON codec (not modelled: the harness supplies scalar texts). URL-encoding by requests/api-core, REST streaming and LRO are not covered. "
-          "The agreement of the two template readings (path_params regex vs _VARIABLE_RE) is a hypothesis of agree_primary, discharged per instance."),
+          "The agreement of the two template readings (path_params regex vs _VARIABLE_RE) is a hypothesis of agree_primary, discharged per instance. "
+          "The model has no notion of package: half of the generated APIs put services and/or request/response messages into a proto sub-package "
+          "(per-service templates rendered with a sub-package view of the API); oracle and model comparison run on them unchanged."),
 )
